@@ -309,6 +309,7 @@ pub fn case_mode(ctx: &mut Ctx, xml: &str, fragment: bool, ex: &Expect) {
             }
             let mut c17 = BTreeSet::new();
             generic_spans(&vocab, seen, xml, &dump, &mut c17);
+            ctx.sink.stat("oracle.C17.slices-taken-through-Span-range");
             {
                 // slices and their decoding, from the source text and the tree alone
                 let mut st = vec![];
